@@ -165,7 +165,8 @@ def check_case(ctx, case):
     def viol(key, what, w):
         ctx.violation("dependency-inside-dependency-head" if nested else key, what, w)
 
-    exp_html, exp_deps = refdoc.assemble(case["content"] + case["late"], case["kw"], case["lib_prefix"], case["include_version"])
+    exp_html, exp_deps = refdoc.assemble(case["content"] + case["late"], case["kw"], case["lib_prefix"], case["include_version"],
+                                         headc_name_of=lambda r: gen.build(strip_marks(r)).name)
     want = DOCTYPE + gen.build(strip_marks(exp_html)).get_html_string()
     got = out["html"]
     if not got.startswith(DOCTYPE):
